@@ -14,6 +14,7 @@ records or by-catch files from the first pass; the handle-level theory is proper
 """
 import itertools
 import os
+import sys
 
 from harness import common
 from harness.gen import layouts
@@ -313,7 +314,23 @@ def _judge(ctx, case, r, obs, contents, second=False):
                        [(None if d is None else d.hex(), e) for d, e in g2][:12])
 
 
-def evaluate(ctx, drv, cases):
+def _run_chunk_optimized(cases):
+    """the same as `_run_chunk`, in a child interpreter started with `python -O` (assert statements compiled away, so a
+    change that moves bookkeeping - a seek, a counter - INTO an assert only misbehaves there)"""
+    import pickle
+    import subprocess
+    env = dict(os.environ, PYTHONPATH=common.VERIF + os.pathsep + os.environ.get('PYTHONPATH', ''))
+    p = subprocess.run(['/venv/bin/python', '-O', '-B', '-m', 'harness.props.c10', '--opt-worker'], cwd=common.VERIF, env=env,
+                       input=pickle.dumps(cases), capture_output=True, timeout=900)
+    if p.returncode != 0:
+        raise RuntimeError('python -O worker failed: ' + p.stderr.decode(errors='replace')[-800:])
+    flag, out = pickle.loads(p.stdout)
+    if flag != 1:
+        raise RuntimeError(f'python -O worker ran with sys.flags.optimize = {flag}')
+    return out
+
+
+def evaluate(ctx, drv, cases, optimized=False):
     rng = ctx.rng
     for c in cases:
         c.setdefault('paths', layouts.paths_for(len(c['sizes']), rng, nested=c.get('kind', '').startswith('random')))
@@ -327,13 +344,17 @@ def evaluate(ctx, drv, cases):
             second[n] = len(reqs)
             reqs.append({'op': 'c10.items', 'L': c['L'], 'sizes': c['sizes'], 'disk': c['disk2']})
     replies = drv.run(reqs)
-    results = common.pmap(_run_chunk, common.split(cases, common.NPROC * 4))
+    results = common.pmap(_run_chunk_optimized if optimized else _run_chunk, common.split(cases, common.NPROC * 4))
     k = 0
     for chunk in results:
         for (c, obs, contents) in chunk:
             r = replies[k]
             case = {x: c[x] for x in ('L', 'sizes', 'disk', 'paths', 'cseed')}
             key = (c['L'], tuple(c['sizes']), tuple(map(str, c['disk'])))
+            if optimized:
+                case['python'] = '-O'
+                key = key + ('python -O',)
+                ctx.dist['python -O'] += 1
             if c.get('late'):
                 case['late'] = True
                 key = key + ('late',)
@@ -417,17 +438,40 @@ def run(ctx, drv):
         'probed as the only bad file (expected: the items of the same case with that file missing)',
         'theorem hypothesis: no bad zero-length entry; outside it the implementation is compared with the lenient spec directly',
         'file system behaviour (open/read/seek/getsize) of CPython/Linux is trusted',
+        'a slice of the cases (bad files first) is repeated in child interpreters started with `python -O` (assert statements '
+        'compiled away); judged by the same theorems - the model has no notion of the interpreter flag',
     ]
-    evaluate(ctx, drv, gen_cases(ctx))
+    cases = gen_cases(ctx)
+    evaluate(ctx, drv, cases)
+    # a slice of the same cases under `python -O`: every case with a bad file that shares its last piece with a following
+    # file (the skip / seek path of `_iter_from_file_handle`), plus a random tenth of the rest
+    evaluate(ctx, drv, _optimized_slice(ctx, cases), optimized=True)
+
+
+def _optimized_slice(ctx, cases):
+    pick = [dict(c) for c in cases if not c.get('late') and not c.get('disk2') and 'unreadable' not in c['disk']]
+    bad = [c for c in pick if any(d != 'ok' for d in c['disk'])]
+    ctx.rng.shuffle(bad)
+    rest = [c for c in pick if all(d == 'ok' for d in c['disk'])]
+    ctx.rng.shuffle(rest)
+    return bad[:ctx.n(1500, 12000)] + rest[:ctx.n(150, 1200)]
 
 
 def search(ctx, drv):
-    evaluate(ctx, drv, gen_cases(ctx, scale=3.0))
+    cases = gen_cases(ctx, scale=3.0)
+    evaluate(ctx, drv, cases)
+    evaluate(ctx, drv, _optimized_slice(ctx, cases), optimized=True)
 
 
 def replay(ctx, drv, rp):
     c = dict(rp['case'])
     c.pop('judged_state', None)
-    evaluate(ctx, drv, [c])
+    evaluate(ctx, drv, [c], optimized=c.pop('python', None) == '-O')
     return {'fails': bool(ctx.violations or ctx.corr_breaks), 'violations': ctx.violations,
             'corr_breaks': ctx.corr_breaks, 'known': list(ctx.known)}
+
+
+if __name__ == '__main__' and '--opt-worker' in sys.argv:
+    import pickle
+    _cases = pickle.loads(sys.stdin.buffer.read())
+    sys.stdout.buffer.write(pickle.dumps((sys.flags.optimize, _run_chunk(_cases))))
